@@ -399,3 +399,58 @@ Definition qroot (adv : nat -> nat * bool) (be : bool) (depth0 : N) (w : wstate)
   let '(n, _) := adv (w_tick w) in
   let w2 := w_saw_depth (w_ticked w) depth0 in
   iter_n n (fun w => let '(w', r') := qrun adv be (N.to_nat (max_queryer_recursion - depth0)) w in w_tally w' r') w2.
+
+(* ------------------------------------------------------------------ Part F: RRSIG verification work *)
+
+(* dnssec.verifyRRSIGWithWork / verifyOneSigWithWork under the resolver's dnssecWorkBudget: per
+   RRset the signatures in order, per signature its same-tag candidate keys in order; before every
+   public-key operation the per-signature candidate allowance, the per-RRset allowance and the
+   tree-wide signature budget are asked, in this order.  A signature is (number of eligible
+   candidates, index of the one that verifies if any). *)
+Inductive sres := SVerified | SWork (r : res) | SFailed.
+
+Fixpoint sig_cands (l : ledger) (rrused candused : N) (j c : nat) (v : option nat) : ledger * N * sres :=
+  match c with
+  | O => (l, rrused, SFailed)
+  | S c' =>
+    let '(l1, r1) := check_local l kind_dnskey_candidate candused true in
+    match r1 with
+    | ROk =>
+      let '(l2, r2) := check_local l1 kind_rrset_signature rrused true in
+      match r2 with
+      | ROk =>
+        let '(l3, r3) := debit l2 kind_signature true in
+        match r3 with
+        | ROk =>
+          if match v with Some i => Nat.eqb i j | None => false end
+          then (l3, rrused + 1, SVerified)
+          else sig_cands l3 (rrused + 1) (candused + 1) (S j) c' v
+        | e => (l3, rrused, SWork e)
+        end
+      | e => (l2, rrused, SWork e)
+      end
+    | e => (l1, rrused, SWork e)
+    end
+  end.
+
+Fixpoint rrset_sigs (l : ledger) (rrused : N) (sigs : list (nat * option nat)) : ledger * sres :=
+  match sigs with
+  | [] => (l, SFailed)
+  | (c, v) :: rest =>
+    let '(l1, used1, r) := sig_cands l rrused 0 O c v in
+    match r with
+    | SFailed => rrset_sigs l1 used1 rest
+    | r' => (l1, r')
+    end
+  end.
+
+Fixpoint verify_rrsets (l : ledger) (sets : list (list (nat * option nat))) : ledger * sres :=
+  match sets with
+  | [] => (l, SVerified)
+  | sigs :: rest =>
+    let '(l1, r) := rrset_sigs l 0 sigs in
+    match r with
+    | SVerified => verify_rrsets l1 rest
+    | r' => (l1, r')
+    end
+  end.
